@@ -63,7 +63,10 @@ def combos(thorough):
                         for e in events:
                             if e == 'kill+notify' and (p not in ('out0+last', 'periodic+last') or len(s) > 1):
                                 continue
-                            if not thorough and d is not None and (len(s) > 1 or s[0][1] > 0 or r != 0 or p in ('none', 'last-only')):
+                            if not thorough and d is not None and (len(s) > 1 or r != 0 or p in ('none', 'last-only')
+                                                                   or (s[0][1] > 0 and p != 'out0+last')):
+                                # (a task that outlives the notification + a delay that expires between two executions
+                                # is kept for one output pattern: the engine once never stopped there, fixed 1798c57)
                                 continue
                             if not thorough and c == 'false' and p in ('out0', 'periodic+last'):
                                 # with check-producer-output off the engine never looks at output times: out0+last covers these
@@ -595,5 +598,13 @@ def _sel_stale_output(f):
     return bool(outs) and (tp is None or max(outs) <= tp)
 
 
+def _sel_delay_expires_between_executions(f):
+    """Fixed defect: kill-after-producers-done-delay expires while no task is running but an earlier task object still
+    exists: suicide() only signalled that finished task and the monitor was never cancelled."""
+    c = (f.get('case') or {}).get('combo') or {}
+    return f['sig'].startswith('C13:runs-forever') and c.get('delay') is not None
+
+
 KNOWN_SELECTORS = {'notification_between_output_check_and_flag_read': _sel_read_window,
+                   'delay_expires_between_executions': _sel_delay_expires_between_executions,
                    'output_older_than_observer_start_never_consumed': _sel_stale_output}
